@@ -976,3 +976,50 @@ def solve_kkt_scaled(tier="quick", seed=0, only=None):
                 if bad and not any(f["label"] == "C05:scaled:evaluation_outside_box" for f in failures):
                     failures.append(dict(label="C05:scaled:evaluation_outside_box", input=inp, observed=repr(bad[0])[:200]))
     return result(cases, failures, f"scenarios {names} x custom scalings (weights in [-2,2], obj_weight in {{0,2,-1}})")
+
+
+@native("native.solve.degenerate", ["C06"])
+def solve_degenerate(tier="quick", seed=0, only=None):
+    """bounded: degenerate problem classes of the C06 quantifier (all variables active and no constraints, fixed
+    variables, empty reduced systems) x every step solver x reporting options: solve() ends with a status or one of
+    its deliberate errors, and x, y, d are finite"""
+    use_repo()
+    QP, NLP, Infeasible = _mk_problems()
+    inf = np.inf
+    D = {
+        "lp_all_active_no_cons": (lambda: QP(np.zeros((2, 2)), [1, 1], np.zeros((0, 2)), [], [], [0, 0], [1, 1]), np.array([0.3, 0.3])),
+        "all_fixed_no_cons": (lambda: QP([[1, 0], [0, 1]], [1, -1], np.zeros((0, 2)), [], [], [0.5, -0.25], [0.5, -0.25]), np.array([0.5, -0.25])),
+        "all_fixed_one_eq": (lambda: QP([[1, 0], [0, 1]], [1, -1], [[1, 1]], [0.25], [0.25], [0.5, -0.25], [0.5, -0.25]), np.array([0.5, -0.25])),
+        "steep_lp_all_active": (lambda: QP(np.zeros((3, 3)), [1e6, -1e6, 1e6], np.zeros((0, 3)), [], [], [0, 0, 0], [1, 1, 1]), np.array([0.5, 0.5, 0.5])),
+        "one_var_ranged_row_active": (lambda: QP([[0.0]], [1.0], [[1.0]], [0.25], [0.75], [0.0], [1.0]), np.array([0.5])),
+    }
+    failures, cases = [], 0
+    names = list(D)
+    reporting = [dict(), dict(report_rcond=True), dict(report_rcond=True, collect_path=True, display_interval=0.0)]
+    for name in names:
+        mk, x0 = D[name]
+        for ss in STEP_SOLVERS:
+            for nt in (NEWTON[:1] if tier == "quick" else NEWTON[:3]):
+                for ri, rep in enumerate(reporting):
+                    inp = dict(problem=name, step_solver=ss, newton=nt, reporting=ri)
+                    if only is not None and only != inp:
+                        continue
+                    problem = mk()
+                    params = mk_params(step_solver_type=enum("StepSolverType", ss), newton_type=enum("NewtonType", nt), iteration_limit=60, **rep)
+                    rec = run(problem, params, x0, None, callbacks=False)
+                    cases += 1
+                    if rec.exc is not None:
+                        msg = str(rec.exc)
+                        ok = type(rec.exc) is Exception and msg.startswith(("Inverse step size", "Failed to evaluate initial iterate", "Line search failed", "Derivative check failed"))
+                        if not ok:
+                            failures.append(dict(label=f"C06:internal_error_escapes_solve:{type(rec.exc).__name__}", input=inp, observed=f"{type(rec.exc).__name__}: {msg[:200]}"))
+                        continue
+                    res = rec.result
+                    if not (np.all(np.isfinite(res.x)) and np.all(np.isfinite(res.y)) and np.all(np.isfinite(res.d))):
+                        failures.append(dict(label="C06:non-finite_result", input=inp, observed=str(res.status)))
+    seen, uniq = set(), []
+    for f in failures:
+        if f["label"] not in seen:
+            seen.add(f["label"])
+            uniq.append(f)
+    return result(cases, uniq, f"degenerate problems {names} x step solvers {STEP_SOLVERS} x reporting options")
